@@ -115,6 +115,19 @@ let process line =
            let ty = (match fresh cs c fid_objectType with VInt z -> string_of_z z | _ -> "?") in
            "C ok cls=" ^ string_of_z c ^ " type=" ^ ty
        | _ -> "C ok cls=0 type=-")
+  | "E" :: c :: sets ->
+      (* members emitted by write() along the path taken in this state (model only) *)
+      let c = int_of_string c in
+      let s = apply_sets c (fresh cs (z_of_int c)) sets in
+      (match enc cs cap (z_of_int c) s with
+       | Ok (s', _) ->
+           let l = emitted cs (callf cs (z_of_int c)) (emit_of (z_of_int c)) s' in
+           "E ok " ^ String.concat "," (List.map string_of_z l)
+       | Err e -> "E err " ^ err_name e)
+  | "K" :: _ ->
+      (* per-class verdicts of the reflective checks (evaluated outside Coq when an obligation broke) *)
+      String.concat ";" (List.map (fun c ->
+        string_of_z c ^ ":rt=" ^ b01 (rt_ok c) ^ ":rtx=" ^ b01 (List.exists (fun x -> Z.eqb x c) rt_exceptions)) object_classes)
   | [""] | [] -> ""
   | _ -> "? bad case"
 
